@@ -150,6 +150,7 @@ static std::string handle(const std::vector<std::string> &t)
       : ctor == 'f' ? static_cast<sdkm::PeriodicExportingMetricReader *>(sdkm::PeriodicExportingMetricReaderFactory::Create(std::move(hex), opt).release())
       : ctor == 'g' ? static_cast<sdkm::PeriodicExportingMetricReader *>(sdkm::PeriodicExportingMetricReaderFactory::Create(std::move(hex), opt, ropt).release())
                     : new sdkm::PeriodicExportingMetricReader(std::move(hex), opt);
+  const std::string cfg_seen = std::to_string(reader->export_interval_millis_.count()) + "/" + std::to_string(reader->export_timeout_millis_.count());
   detsched::name_object(&reader->shutdown_, "shutdown");
   detsched::name_object(&reader->is_force_wakeup_background_worker_, "wake");
   detsched::name_object(&reader->force_flush_pending_sequence_, "pending");
@@ -218,7 +219,9 @@ static std::string handle(const std::vector<std::string> &t)
     done = detsched::drain(4000, &dtrace, -1);
   }
   if (!dtrace.empty()) outs.push_back(dtrace.substr(0, dtrace.size() - 3));
-  std::string sum = std::string("done=") + (done ? "1" : "0") + " reentrant=" + std::to_string(sh.reentrant);
+  // what the reader was configured with: under the scheduler durations are schedule actions, so the VALUES the constructor /
+  // factory kept are not visible in the trace; print them (read right after construction)
+  std::string sum = std::string("done=") + (done ? "1" : "0") + " reentrant=" + std::to_string(sh.reentrant) + " cfg=" + cfg_seen;
   outs.push_back(sum);
   if (!done)
   {
